@@ -696,6 +696,11 @@ class HeavyHitters:
             np.uint64,
         )
 
+        # The cached candidate set described the arrays this sketch held before
+        self.candidate_set = Counter()
+        self.n_added_sort = 0
+        self.threshold_sort = np.uint32(0)
+
         # Now create class member to hold this so __del__ can clean up for us
         self.existing_shm = existing_shm
 
